@@ -16,6 +16,7 @@ C13 clauses
 * `agree`       the second resolver agrees with the first on the nine attributes both overlay
                 (all but description and render hints) whenever the component's type is indexed.
 * `preds`       two observations with the same resolved definition report the same predicate values.
+* `pred.*`      every predicate has the value the protocol's kind vocabulary gives it (`checkPreds`).
 * `mutated`     the serialised form after the look-up equals the serialised form before.
 Integer arguments outside `0 ≤ id < 2^32` (second resolver) and negative slice indices are outside the domain.
 -/
@@ -39,7 +40,7 @@ def overlay (b : TypeDef) : Option TypeDef → TypeDef
       desc := if o.desc ≠ [] then o.desc else b.desc
       ext := if o.ext ≠ [] then o.ext else b.ext
       subidx := if o.subidx > 0 then o.subidx else b.subidx
-      rotate := if o.rotate ≠ [48] then o.rotate else b.rotate
+      rotate := if rotIsZero o.rotate then b.rotate else o.rotate
       disp := match o.disp with | some d => some d | none => b.disp
       sub := match o.sub with | [] => b.sub | s => s
       render := if o.render ≠ [] then o.render else b.render }
@@ -68,6 +69,62 @@ def checkB (t : Topology) (c : Option HWc) (r : Result) : Option String :=
       match r with
       | .typeDef td => ok (sharedEq td (resolved t c)) "agree"
       | _ => some "agree.shape"
+
+/-! ### the derived predicates, from the protocol's vocabulary of input / output / extended kinds
+
+The *input kind* of a definition is the first comma-separated token of its `in` string.  Buttons are the kinds
+`b b4 b2h b2v pb`; binary inputs are the buttons and `gpi`; pulsed `pb p`; absolute `av ah ar a`; intensity
+`iv ih ir i`.  A display is present when the definition has a display description.  LEDs: output kind `rgb`, or
+the **whole** input string is `rg`, `rb` or `mono`.  Motorised: extended kind `pos`.  Steps: extended kind
+exactly `steps` → span of the sub-element indices (largest − smallest + 1; stated for a non-empty list with
+indices within ±10000, the values the code's sentinels allow), otherwise 0.  LED-bar steps: the extended kind
+*contains* `steps` → number of sub elements, otherwise 0. -/
+
+def bytes (s : String) : Str := s.toList.map (fun c => c.toNat.toUInt8)
+
+/-- the first comma-separated token -/
+def firstTok (s : Str) : Str := s.takeWhile (· != 44)
+
+/-- relational reading of `firstTok`: no comma inside, and the string is the token alone or the token, a comma
+and anything -/
+def IsFirstToken (s tok : Str) : Prop := 44 ∉ tok ∧ (s = tok ∨ ∃ rest, s = tok ++ 44 :: rest)
+
+def kindIn (k : Str) (l : List String) : Bool := (l.map bytes).contains k
+
+def buttonKinds : List String := ["b", "b4", "b2h", "b2v", "pb"]
+def binaryKinds : List String := buttonKinds ++ ["gpi"]
+def pulsedKinds : List String := ["pb", "p"]
+def absoluteKinds : List String := ["av", "ah", "ar", "a"]
+def intensityKinds : List String := ["iv", "ih", "ir", "i"]
+def ledInputs : List String := ["rg", "rb", "mono"]
+
+/-- `sub` occurs somewhere in `s` (executable form of `sub <:+: s`) -/
+def hasInfix (sub s : Str) : Bool := (List.range (s.length + 1)).any (fun i => sub.isPrefixOf (s.drop i))
+
+/-- span of the sub-element indices, where the property's reading applies -/
+def stepSpan (td : TypeDef) : Option Int :=
+  let idxs := td.sub.map (·.idx)
+  match idxs.max?, idxs.min? with
+  | some mx, some mn => if idxs.all (fun x => decide (-10000 ≤ x ∧ x ≤ 10000)) then some (mx - mn + 1) else none
+  | _, _ => none
+
+/-- the predicate values of a definition; `none` = the first clause that fails -/
+def checkPreds (td : TypeDef) (p : Preds) : Option String :=
+  let k := firstTok td.inp
+  if p.inputType ≠ k then some "pred.inputType"
+  else if p.isButton ≠ kindIn k buttonKinds then some "pred.isButton"
+  else if p.isBinary ≠ kindIn k binaryKinds then some "pred.isBinary"
+  else if p.isPulsed ≠ kindIn k pulsedKinds then some "pred.isPulsed"
+  else if p.isAbsolute ≠ kindIn k absoluteKinds then some "pred.isAbsolute"
+  else if p.isIntensity ≠ kindIn k intensityKinds then some "pred.isIntensity"
+  else if p.hasDisplay ≠ td.disp.isSome then some "pred.hasDisplay"
+  else if p.hasLED ≠ (td.out == bytes "rgb" || kindIn td.inp ledInputs) then some "pred.hasLED"
+  else if p.isMotorized ≠ (td.ext == bytes "pos") then some "pred.isMotorized"
+  else if p.ledBarSteps ≠ (if hasInfix (bytes "steps") td.ext then (td.sub.length : Int) else 0) then some "pred.ledBarSteps"
+  else if td.ext ≠ bytes "steps" then (if p.hasSteps ≠ 0 then some "pred.hasSteps" else none)
+  else match stepSpan td with
+    | some n => if p.hasSteps ≠ n then some "pred.hasSteps" else none
+    | none => none
 
 def checkLookup (t : Topology) (before : Str) (q : Query) (a : Answer) : Option String :=
   if a.after ≠ before then some "mutated" else
@@ -102,10 +159,10 @@ def checkLookup (t : Topology) (before : Str) (q : Query) (a : Answer) : Option 
     match firstWithId t id.toNat with
     | some c => ok (r == .comp c) "defid"
     | none => ok (r == .comp {}) "notfound.defid"
-  | .pred _, .preds _ => none
+  | .pred td, .preds p => checkPreds td p
   | .predOf id, r =>
     match firstWithId t id, r with
-    | some c, .typePreds td _ => ok (td == resolved t c) "overlay"
+    | some c, .typePreds td p => if td == resolved t c then checkPreds td p else some "overlay"
     | none, .notFound _ => none
     | some _, _ => some "overlay.shape"
     | none, _ => some "notfound.type"
@@ -134,10 +191,19 @@ is not a type number of the index -/
 def inDomain14 (t : Topology) : Bool :=
   !(keys t).contains 0 && t.hwc.all (fun c => c.type == 0 || (base t c.type).isSome)
 
+/-- the renumbering clause for one component (`c` before, `c'` after): a component whose type is indexed keeps
+its resolved definition — whatever else is in the topology; a component of type 0 ("disabled") keeps it provided 0
+is not a type number of the index (otherwise "ids exactly 1..n" contradicts it); for a component whose non-zero
+type is missing from the index the property makes no claim (the number may be handed to another type). -/
+def compKept (t t' : Topology) (c c' : HWc) : Bool :=
+  if c.type = 0 then (keys t).contains 0 || resolved t' c' == resolved t c
+  else (base t c.type).isNone || resolved t' c' == resolved t c
+
 def checkRandomize (sequence : Bool) (t t' : Topology) : Option String :=
   if t'.hwc.map eraseType ≠ t.hwc.map eraseType then some "components"
   else if (keys t').length ≠ (keys t).length then some "typecount"
   else if inDomain14 t && t'.hwc.map (resolved t') ≠ t.hwc.map (resolved t) then some "resolved"
+  else if !(t.hwc.zip t'.hwc).all (fun cc => compKept t t' cc.1 cc.2) then some "resolved.component"
   else if sequence && !((List.range' 1 (keys t).length).all (fun k => (keys t').contains k)) then some "seqids"
   else none
 
@@ -145,10 +211,12 @@ def checkRandomize (sequence : Bool) (t t' : Topology) : Option String :=
 def checkClean (t t' : Topology) : Option String :=
   ok (t'.hwc == t.hwc.filter (fun c => c.type != Gen.sectionType)) "clean"
 
-/-- `j` = serialised `t`, `parsed` = what parsing `j` gave, `j2` = serialised `parsed` -/
+/-- `j` = serialised `t`, `parsed` = what parsing `j` gave, `j2` = serialised `parsed`.
+"Equal topology" is Go equality: the `float32` rotation is compared as a value (`-0 == 0`), everything else
+field by field (`Topology.norm`). -/
 def checkRoundTrip (t : Topology) (j : Str) (parsed : Option Topology) (j2 : Str) : Option String :=
   match parsed with
   | none => some "json.parse"
-  | some t' => if t' ≠ t then some "json.roundtrip" else if j2 ≠ j then some "json.fixpoint" else none
+  | some t' => if t'.norm ≠ t.norm then some "json.roundtrip" else if j2 ≠ j then some "json.fixpoint" else none
 
 end RawPanelVerif.Spec.Topo
